@@ -312,9 +312,11 @@ impl<W: WriteColor> SearchWorker<W> {
                 ),
             )
         })?;
+        // N.B. Keep the kind of the error. In particular, callers treat a
+        // broken pipe (when writing results) as a graceful termination.
         let result = self.search_reader(path, &mut rdr).map_err(|err| {
             io::Error::new(
-                io::ErrorKind::Other,
+                err.kind(),
                 format!("preprocessor command failed: '{:?}': {}", cmd, err),
             )
         });
